@@ -326,13 +326,16 @@ class MindsDBLexer(Lexer):
     def INTEGER(self, t):
         return t
 
-    @_(r"'(?:\\.|[^'])*(?:''(?:\\.|[^'])*)*'")
+    # An escape pair / doubled quote is taken only when a closing quote can still follow (look-ahead), which is
+    # what backtracking over `\\.|[^']` ends up with anyway; without it an unterminated literal holding many
+    # backslashes makes the match exponential.
+    @_(r"'(?:\\.(?=[^']*')|[^'])*(?:''(?=[^']*')(?:\\.(?=[^']*')|[^'])*)*'")
     def QUOTE_STRING(self, t):
         self.lineno += t.value.count('\n')
         # the token keeps its source text; un-escaping is done by the grammar action `quote_string`
         return t
 
-    @_(r'"(?:\\.|[^"])*"')
+    @_(r'"(?:\\.(?=[^"]*")|[^"])*"')
     def DQUOTE_STRING(self, t):
         self.lineno += t.value.count('\n')
         # the token keeps its source text; un-escaping is done by the grammar action `dquote_string`
